@@ -29,7 +29,7 @@ func genDirectiveLine(r *rand.Rand) string {
 		}
 		return sb.String()
 	}
-	lead := pick(r, []string{"", "", "", "", " ", "\t", "  ", "\r", "\f", " "})
+	lead := pick(r, []string{"", "", "", "", " ", "\t", "  ", "\r", "\f", " ", "", "", " ", "\v", "\u00a0", " \f", "\t\v", "\u3000", "\u0085", "  \u00a0 "})
 	switch weighted(r, []int{6, 6, 5, 5, 6, 4, 4, 4, 6, 5, 4}) {
 	case 0: // include
 		s := lead + "##!>" + ws() + pick(r, []string{"include", "include", "include", "includes", "incl", "Include"}) + ws1() + tokens(1+r.Intn(2))
